@@ -224,7 +224,10 @@ def main():
         corpus_scens = []
     else:
         corpus_scens = props.corpus_scenarios(pid)
-        scens = corpus_scens + cfg["families"](rng, tier)
+        fam_scens = cfg["families"](rng, tier)
+        # structure-preserving sweeps of single fields / list lengths of the abstract messages (gen.sweep_scenarios)
+        sweeps = gen.sweep_scenarios(rng, fam_scens, per=1, cap=(400 if tier == "quick" else 4000))
+        scens = corpus_scens + fam_scens + sweeps
     nouf_bin = None
     if cfg.get("two_builds"):
         rc2, hout2, nouf_bin = runner.harness_build(features_default=False)
